@@ -18,6 +18,7 @@ import Hx.Obs
 import Hx.Build
 import Hx.Scan.Dispatch
 import Hx.Lemmas.Indep
+import Hx.Props.C12
 namespace Hx
 open Hx.Gen.Cfg
 
